@@ -6,6 +6,7 @@ from ref import terms as T
 from ref import universe as U
 
 ID = "C04"
+PARTS = ['anyterm', 'generics', 'law', 'protocol', 'source', 'td', 'union-right']      # outcome classes every run must produce (guards against a part of the exploration silently not running)
 RULE = ("state = ordered pair (A, B) of Any-free static type terms (all pairs up to the depth bound), plus triples for the union laws; real call: "
         "value(A).can_assign(value(B), Checker) with and without exclude-Any; oracle: subset of extensions over the generated universe U "
         "(accepted and some o in B\\A => violation), reflexivity, Never/object, union laws, Any laws, exclude-Any monotonicity")
